@@ -8,13 +8,20 @@ VARIABLE hist
 
 GenInit == MCInit /\ hist = <<>>
 \* weighted choice (uniform choice would spend the whole API budget before any job step):
-\* 55% a background-job step if one is enabled, otherwise an API call; invalid calls are 1 in 5 API calls.
+\* 55% a background-job step if one is enabled, otherwise an API call; invalid calls are 1 in 5 API calls;
+\* with Restarts, 4% a process kill + restart (on top of its share among the API calls).
 IsValidCall(e) ==
     CASE e.a = "AddTag"   -> AddTagOK(e.name, e.def)
       [] e.a = "DelTag"   -> DelTagOK(e.name)
       [] e.a = "UpdQuery" -> UpdQueryOK(e.name, e.def)
       [] e.a \in {"MarkAdd", "MarkDel"} -> MarkOK(e.name, Range(e.ids))
       [] e.a = "SetConverters" -> SetConvOK(e.name, Range(e.convs))
+      [] e.a = "UpdName" -> e.v = "" \/ UpdNameOK(e.name, e.v)
+      [] e.a = "UpdColor" -> UpdColorOK(e.name)
+      [] e.a = "AddHook" -> AddHookOK(e.what)
+      [] e.a = "DelHook" -> DelHookOK(e.what)
+      [] e.a = "AddEndpoint" -> AddEndpointOK(e.what)
+      [] e.a = "DelEndpoint" -> DelEndpointOK(e.what)
       [] OTHER -> TRUE
 GenNext ==
     /\ Len(hist) < MaxLen
@@ -22,7 +29,9 @@ GenNext ==
            jevs == en \cap JobEvents
            good == {e \in en \ JobEvents : IsValidCall(e)}
            bad  == (en \ JobEvents) \ good
+           kill == {e \in good : e.a = "Restart"}
            pool == IF jevs # {} /\ (dice <= 55 \/ good \cup bad = {}) THEN jevs
+                   ELSE IF kill # {} /\ dice > 55 /\ dice <= 59 /\ Len(hist) > 3 THEN kill       \* a kill about once per 25 steps
                    ELSE IF bad # {} /\ (dice > 91 \/ good = {}) THEN bad
                    ELSE IF good # {} THEN good ELSE jevs
        IN /\ pool # {}
